@@ -15,6 +15,9 @@ SuppTwice == << S("labelf", "-", "a", "f1"), S("labelf", "-", "a", "f2"), S("lab
                S("catlabelf", "runtime", "a", "f1"), S("catlabelf", "runtime", "a", "f2") >>
 \* suppressions that name a category by its alias or by its canonical name
 SuppAlias == << S("cat", "parser", "-", "-"), S("cat", "syntax", "-", "-"), S("catlabel", "parser", "a", "-"), S("catf", "parser", "-", "f1") >>
+\* a whole category narrowed by fields, registered BEFORE suppressions of single labels of the same category
+SuppCatF == << S("catf", "runtime", "-", "k2"), S("catf", "runtime", "-", "f1"), S("catlabel", "runtime", "a", "-"),
+              S("catlabelf", "runtime", "b", "f1"), S("cat", "runtime", "-", "-"), S("label", "-", "a", "-") >>
 SuppScore == << S("cat", "runtime", "-", "-"), S("label", "-", "a", "-") >>
 AllCats == {"syntax", "mistakes", "instructor", "algorithmic", "runtime", "student", "specification",
             "positive", "instructions", "uncategorized", "style", "system", "complete"}
